@@ -1239,6 +1239,37 @@ func (b *beacon) SelectExpiredForPatch(howMany int) []treasure.Treasure {
 	return selected
 }
 
+// sortTreasuresByInt64 sorts treasures by an int64 attribute read ONCE per
+// treasure. The beacons hold live treasures whose attributes are changed by
+// guard holders that do not own the beacon mutex (a lease moves ExpirationTime,
+// deleting a file-backed treasure zeroes it before the treasure leaves the
+// index). A comparator that re-reads the live value can see it change in the
+// middle of a sort; the sort then leaves OTHER, untouched treasures out of
+// order, and the index stays unsorted until its next sort (claims walk it
+// oldest-first). Sorting a snapshot of the keys keeps every untouched treasure
+// correctly ordered; the touched one is re-positioned by its own re-index.
+func sortTreasuresByInt64(ts []treasure.Treasure, key func(treasure.Treasure) int64, desc bool) {
+	type keyed struct {
+		t treasure.Treasure
+		k int64
+	}
+	tmp := make([]keyed, len(ts))
+	for i, t := range ts {
+		tmp[i] = keyed{t, key(t)}
+	}
+	sort.SliceStable(tmp, func(i, j int) bool {
+		if desc {
+			return tmp[i].k > tmp[j].k
+		}
+		return tmp[i].k < tmp[j].k
+	})
+	for i := range tmp {
+		ts[i] = tmp[i].t
+	}
+}
+
+func expirationTimeOf(t treasure.Treasure) int64 { return t.GetExpirationTime() }
+
 // ReindexExpiration inserts the given treasures back into treasuresByOrder
 // at the position determined by their current GetExpirationTime(). The
 // operation is idempotent — entries already present (matched by key)
@@ -1301,9 +1332,7 @@ func (b *beacon) ReindexExpiration(treasures []treasure.Treasure) {
 	// ascending here because callers of SelectExpiredForPatch use the
 	// ASC beacon (oldest expired first); the matching DESC beacon does
 	// not feed expired-shift / expired-patch flows.
-	sort.Slice(b.treasuresByOrder, func(k, l int) bool {
-		return b.treasuresByOrder[k].GetExpirationTime() < b.treasuresByOrder[l].GetExpirationTime()
-	})
+	sortTreasuresByInt64(b.treasuresByOrder, expirationTimeOf, false)
 	b.sortOrder = SortByExpirationTimeAsc
 }
 
@@ -1715,9 +1744,7 @@ func (b *beacon) SortByExpirationTimeAsc() error {
 	}
 
 	b.sortOrder = SortByExpirationTimeAsc
-	sort.Slice(b.treasuresByOrder, func(k, l int) bool {
-		return b.treasuresByOrder[k].GetExpirationTime() < b.treasuresByOrder[l].GetExpirationTime()
-	})
+	sortTreasuresByInt64(b.treasuresByOrder, expirationTimeOf, false)
 	return nil
 }
 
@@ -1728,9 +1755,7 @@ func (b *beacon) SortByExpirationTimeDesc() error {
 		return errors.New("the beacon is not ordered")
 	}
 	b.sortOrder = SortByExpirationTimeDesc
-	sort.Slice(b.treasuresByOrder, func(k, l int) bool {
-		return b.treasuresByOrder[k].GetExpirationTime() > b.treasuresByOrder[l].GetExpirationTime()
-	})
+	sortTreasuresByInt64(b.treasuresByOrder, expirationTimeOf, true)
 	return nil
 }
 func (b *beacon) SortByUpdateTimeAsc() error {
